@@ -292,6 +292,9 @@ class Interp:
     def dot_general(self, e, ins):
         (lc, rc), (lb, rb) = e.params["dimension_numbers"]
         a, b = ins
+        if sort_of(e.outvars[0].aval.dtype) == "Real":       # mixed-dtype operands (preferred_element_type)
+            cvt = lambda arr: _elementwise(lambda t: tm.toreal(t) if getattr(t, "sort", "Real") == "Int" else t, [arr])
+            a, b = cvt(a), cvt(b)
         lfree = [i for i in range(a.ndim) if i not in lc and i not in lb]
         rfree = [i for i in range(b.ndim) if i not in rc and i not in rb]
         at = np.transpose(a, list(lb) + lfree + list(lc))
